@@ -103,7 +103,12 @@ def kernel_tie_leg(chk, family):
             chk.write_log("coq_kernels_prop_build.log", mk2)
             return broken(f or prop_file, "%s does not build: %s" % (prop_file, last_error(mk2)))
     info["status"] = "ok"
-    info["obligations"] = ["K" + n for n in names]
+    try:
+        published = [n for n in theorem_names(os.path.join(COQ, prop_file)) if n[1:] in names]
+    except OSError:
+        published = []
+    info["obligations"] = published                 # the theorems Ktie_<fn> of the statements file
+    info["lemmas"] = names                          # every lemma tie_* of the proof file (helpers of the loops included)
     info["assumptions"] = "none (Closed under the global context)"
     info["qed"] = nq      # counted in coverage.obligations through the proof_leg file list of the check
     return True
